@@ -436,6 +436,21 @@ def main():
       "empty @is_you(int i) { write('['); write(ke); write(']'); writeln(ke); const byte[] le = []; write(le); show(le); show(ke); show(\"\"); show(\"\" is byte[]); show(se is byte[]); write(se); write(\"\"); "
       "sleep(ke.length + ie.length + be.length + se.length + sa.length); if (i > 0) { sleep(ie[i]); } write('.'); }\n")
     M('empty-then-data', "const byte[] ke = [];\nconst byte[] kd = ['d'];\nconst string s0 = \"\";\nconst string s1 = \"x\";\nempty @is_you(int i) { write(ke); write(kd); write(s0); write(s1); write(ke); writeln(s0); write([\"\", \"y\"][i]); }\n")
+    # tables with special contents (all zero, all equal, all ones): a compact encoding of such a table must still occupy and return
+    # every element, for every element type and section, with a distinct table right behind it
+    for v, tag in ((0, 'zero'), (1, 'one'), (-1, 'minus1'), (255, 'ff')):
+        for n in (1, 2, 3, 5):
+            vs = ', '.join([str(v)] * n)
+            bv = ', '.join([str(v & 0xFF)] * n)
+            fv = ', '.join(['true' if v & 1 else 'false'] * n)
+            M('uniform-%s-%d' % (tag, n),
+              "const int[] t = [%s];\nconst int[] after = [11, 22, 33];\nint[] mt = [%s];\nint[] mafter = [44, 55];\nconst byte[] bt = [%s];\nconst byte[] bafter = [66, 77];\n"
+              "const bool[] ft = [%s];\nconst bool[] fafter = [true, false, true];\n"
+              "empty @is_you(int i) { sleep(t[i %% %d]); sleep(after[i %% 3]); sleep(t.length); sleep(mt[i %% %d]); sleep(mafter[i %% 2]); write(bt[i %% %d]); write(bafter); sleep(ft[i %% %d] is int); "
+              "sleep(fafter[i %% 3] is int); const int[] lt = [%s]; const int[] lafter = [88, 99]; sleep(lt[i %% %d]); sleep(lafter[i %% 2]); int[] st = [%s]; sleep(st[i %% %d]); sleep(after[2] + mafter[1] + lafter[1]); }\n"
+              % (vs, vs, bv, fv, n, n, n, n, vs, n, vs, n))
+    M('empty-strings-table', "const string[] es = [\"\", \"\", \"\"];\nconst string[] after = [\"a\", \"\", \"bc\"];\nconst string z = \"\\0\\0\";\nconst string zz = \"\\0\";\n"
+      "empty @is_you(int i) { write(es[i % 3]); write('|'); write(after[i % 3]); write('|'); write(z); write('|'); write(zz); sleep(z.length + zz.length + es.length); sleep(es[i % 3].length); }\n")
     mtasks = [case_to_task(c.with_(word=W, stack=96)) for c in multi for W in ([2, 4] if quick else [2, 3, 4, 8])]
     run_tasks(rep, mtasks, worker=check_case, limit=600, sample_every=3)
     # (C) CrossHair on the escaping function
